@@ -36,7 +36,7 @@ var kinds = map[string]string{
 	"s.Returns = promParser.ValueTypeVector|" + gsel: "preserve",
 	"s.Returns = promParser.ValueTypeVector":         "sort",
 	"s.Returns = promParser.ValueTypeScalar|s.IncludedLabels = nil|s.GuaranteedLabels = nil|s.FixedLabels = true|s.AlwaysReturns = true|s = excludeAllLabels(...)": "scalar",
-	"s.Returns = promParser.ValueTypeVector|s.FixedLabels = true|s.IncludedLabels = nil|s.GuaranteedLabels = nil|" +
+	"s.Returns = promParser.ValueTypeVector|s.IsDead = false|s.IsDeadReason = \"\"|s.AlwaysReturns = false|s.FixedLabels = true|s.IncludedLabels = nil|s.GuaranteedLabels = nil|" +
 		"for _, name := range labelsFromSelectors([]labels.MatchType{labels.MatchEqual}, s.Selector) { s = includeLabel(s, name) s = guaranteeLabel(s, name) }|s = excludeAllLabels(...)": "absent",
 	"s.Returns = promParser.ValueTypeVector|if len(s.Call.Args) == 0 { s.FixedLabels = true s.AlwaysReturns = true s.IncludedLabels = nil s.GuaranteedLabels = nil s = excludeAllLabels(...) } else { " + gsel + " }": "timelike",
 	"s.Returns = promParser.ValueTypeVector|s = guaranteeLabel(s, n.Args[1].(*promParser.StringLiteral).Val)": "arg1",
